@@ -38,9 +38,8 @@ Definition remove_spec (m : tmap) (L pos : Z) : tmap :=
    assignment: a2[t],··· = a1[f],···,a1[e]" — all reads precede all writes.
    The call must fail when the number of elements or the last destination
    index is not representable. *)
-Definition move_ok (same : bool) (f e t : Z) : bool :=
-  (f >? e) || (same && (f =? t))       (* nothing to assign / every element assigned to itself *)
-  || ((e - f + 1 <=? maxint) && (t + (e - f) <=? maxint)).
+Definition move_ok (f e t : Z) : bool :=
+  (f >? e) || ((e - f + 1 <=? maxint) && (t + (e - f) <=? maxint)).
 Definition move_spec (src dst : tmap) (f e t : Z) : tmap :=
   fun k => if (f <=? e) && (t <=? k) && (k <=? t + (e - f)) then src (k - t + f) else dst k.
 
